@@ -1,6 +1,23 @@
 import PpciVerif.Proofs.AsmSyn
 import PpciVerif.Proofs.AsmParse
 import PpciVerif.Gen.AsmAll
+import PpciVerif.Proofs.AsmTab.arm
+import PpciVerif.Proofs.AsmTab.thumb
+import PpciVerif.Proofs.AsmTab.avr
+import PpciVerif.Proofs.AsmTab.m68k
+import PpciVerif.Proofs.AsmTab.mcs6500
+import PpciVerif.Proofs.AsmTab.microblaze
+import PpciVerif.Proofs.AsmTab.mips
+import PpciVerif.Proofs.AsmTab.msp430
+import PpciVerif.Proofs.AsmTab.or1k
+import PpciVerif.Proofs.AsmTab.riscv
+import PpciVerif.Proofs.AsmTab.rvc
+import PpciVerif.Proofs.AsmTab.rvf
+import PpciVerif.Proofs.AsmTab.rvfx
+import PpciVerif.Proofs.AsmTab.stm8
+import PpciVerif.Proofs.AsmTab.x86_64
+import PpciVerif.Proofs.AsmTab.x87
+import PpciVerif.Proofs.AsmTab.xtensa
 /-!
 # C09 — assembling an instruction's printed form reproduces its encoding   (level P)
 
@@ -41,23 +58,23 @@ theorem expandChoice_covered (tab : List SynDesc) (fuel : Nat) (es : List Elem) 
     ls ∈ expand tab fuel es :=
   Proofs.AsmSyn.expandChoice_mem tab fuel es ch ls ch' h
 
-theorem arm_wellSpaced : configWellSpaced Gen.Asm_arm.config = true := by decide +kernel
-theorem thumb_wellSpaced : configWellSpaced Gen.Asm_thumb.config = true := by decide +kernel
-theorem avr_wellSpaced : configWellSpaced Gen.Asm_avr.config = true := by decide +kernel
-theorem m68k_wellSpaced : configWellSpaced Gen.Asm_m68k.config = true := by decide +kernel
-theorem mcs6500_wellSpaced : configWellSpaced Gen.Asm_mcs6500.config = true := by decide +kernel
-theorem microblaze_wellSpaced : configWellSpaced Gen.Asm_microblaze.config = true := by decide +kernel
-theorem mips_wellSpaced : configWellSpaced Gen.Asm_mips.config = true := by decide +kernel
-theorem msp430_wellSpaced : configWellSpaced Gen.Asm_msp430.config = true := by decide +kernel
-theorem or1k_wellSpaced : configWellSpaced Gen.Asm_or1k.config = true := by decide +kernel
-theorem riscv_wellSpaced : configWellSpaced Gen.Asm_riscv.config = true := by decide +kernel
-theorem rvc_wellSpaced : configWellSpaced Gen.Asm_rvc.config = true := by decide +kernel
-theorem rvf_wellSpaced : configWellSpaced Gen.Asm_rvf.config = true := by decide +kernel
-theorem rvfx_wellSpaced : configWellSpaced Gen.Asm_rvfx.config = true := by decide +kernel
-theorem stm8_wellSpaced : configWellSpaced Gen.Asm_stm8.config = true := by decide +kernel
-theorem x86_64_wellSpaced : configWellSpaced Gen.Asm_x86_64.config = true := by decide +kernel
-theorem x87_wellSpaced : configWellSpaced Gen.Asm_x87.config = true := by decide +kernel
-theorem xtensa_wellSpaced : configWellSpaced Gen.Asm_xtensa.config = true := by decide +kernel
+theorem arm_wellSpaced : configWellSpaced Gen.Asm_arm.config = true := Proofs.AsmTab.arm.wellSpaced
+theorem thumb_wellSpaced : configWellSpaced Gen.Asm_thumb.config = true := Proofs.AsmTab.thumb.wellSpaced
+theorem avr_wellSpaced : configWellSpaced Gen.Asm_avr.config = true := Proofs.AsmTab.avr.wellSpaced
+theorem m68k_wellSpaced : configWellSpaced Gen.Asm_m68k.config = true := Proofs.AsmTab.m68k.wellSpaced
+theorem mcs6500_wellSpaced : configWellSpaced Gen.Asm_mcs6500.config = true := Proofs.AsmTab.mcs6500.wellSpaced
+theorem microblaze_wellSpaced : configWellSpaced Gen.Asm_microblaze.config = true := Proofs.AsmTab.microblaze.wellSpaced
+theorem mips_wellSpaced : configWellSpaced Gen.Asm_mips.config = true := Proofs.AsmTab.mips.wellSpaced
+theorem msp430_wellSpaced : configWellSpaced Gen.Asm_msp430.config = true := Proofs.AsmTab.msp430.wellSpaced
+theorem or1k_wellSpaced : configWellSpaced Gen.Asm_or1k.config = true := Proofs.AsmTab.or1k.wellSpaced
+theorem riscv_wellSpaced : configWellSpaced Gen.Asm_riscv.config = true := Proofs.AsmTab.riscv.wellSpaced
+theorem rvc_wellSpaced : configWellSpaced Gen.Asm_rvc.config = true := Proofs.AsmTab.rvc.wellSpaced
+theorem rvf_wellSpaced : configWellSpaced Gen.Asm_rvf.config = true := Proofs.AsmTab.rvf.wellSpaced
+theorem rvfx_wellSpaced : configWellSpaced Gen.Asm_rvfx.config = true := Proofs.AsmTab.rvfx.wellSpaced
+theorem stm8_wellSpaced : configWellSpaced Gen.Asm_stm8.config = true := Proofs.AsmTab.stm8.wellSpaced
+theorem x86_64_wellSpaced : configWellSpaced Gen.Asm_x86_64.config = true := Proofs.AsmTab.x86_64.wellSpaced
+theorem x87_wellSpaced : configWellSpaced Gen.Asm_x87.config = true := Proofs.AsmTab.x87.wellSpaced
+theorem xtensa_wellSpaced : configWellSpaced Gen.Asm_xtensa.config = true := Proofs.AsmTab.xtensa.wellSpaced
 
 /-- the list `Gen.AsmAll.all` is exactly these 17 configurations -/
 theorem all_configs_wellSpaced : ∀ cfg ∈ Gen.AsmAll.all, configWellSpaced cfg = true := by
@@ -141,28 +158,28 @@ theorem parses_all_trees_of_ranked (G : List Prod) (ranks : List (String × Nat)
     t ∈ parses G (rankOf ranks A + 1) A ts ↔ (t.ok G (.nt A) ∧ t.yield = ts) :=
   Proofs.AsmParse.parses_complete_of_ranked G ranks hr A ts t
 
-theorem avr_ranked : rankedB Gen.Asm_avr.grammar Gen.Asm_avr.ranks = true := by decide +kernel
-theorem m68k_ranked : rankedB Gen.Asm_m68k.grammar Gen.Asm_m68k.ranks = true := by decide +kernel
-theorem mcs6500_ranked : rankedB Gen.Asm_mcs6500.grammar Gen.Asm_mcs6500.ranks = true := by decide +kernel
-theorem microblaze_ranked : rankedB Gen.Asm_microblaze.grammar Gen.Asm_microblaze.ranks = true := by decide +kernel
-theorem mips_ranked : rankedB Gen.Asm_mips.grammar Gen.Asm_mips.ranks = true := by decide +kernel
-theorem msp430_ranked : rankedB Gen.Asm_msp430.grammar Gen.Asm_msp430.ranks = true := by decide +kernel
-theorem or1k_ranked : rankedB Gen.Asm_or1k.grammar Gen.Asm_or1k.ranks = true := by decide +kernel
-theorem riscv_ranked : rankedB Gen.Asm_riscv.grammar Gen.Asm_riscv.ranks = true := by decide +kernel
-theorem rvc_ranked : rankedB Gen.Asm_rvc.grammar Gen.Asm_rvc.ranks = true := by decide +kernel
-theorem rvf_ranked : rankedB Gen.Asm_rvf.grammar Gen.Asm_rvf.ranks = true := by decide +kernel
-theorem rvfx_ranked : rankedB Gen.Asm_rvfx.grammar Gen.Asm_rvfx.ranks = true := by decide +kernel
-theorem stm8_ranked : rankedB Gen.Asm_stm8.grammar Gen.Asm_stm8.ranks = true := by decide +kernel
-theorem x86_64_ranked : rankedB Gen.Asm_x86_64.grammar Gen.Asm_x86_64.ranks = true := by decide +kernel
-theorem x87_ranked : rankedB Gen.Asm_x87.grammar Gen.Asm_x87.ranks = true := by decide +kernel
-theorem xtensa_ranked : rankedB Gen.Asm_xtensa.grammar Gen.Asm_xtensa.ranks = true := by decide +kernel
+theorem avr_ranked : rankedB Gen.Asm_avr.grammar Gen.Asm_avr.ranks = true := Proofs.AsmTab.avr.ranked
+theorem m68k_ranked : rankedB Gen.Asm_m68k.grammar Gen.Asm_m68k.ranks = true := Proofs.AsmTab.m68k.ranked
+theorem mcs6500_ranked : rankedB Gen.Asm_mcs6500.grammar Gen.Asm_mcs6500.ranks = true := Proofs.AsmTab.mcs6500.ranked
+theorem microblaze_ranked : rankedB Gen.Asm_microblaze.grammar Gen.Asm_microblaze.ranks = true := Proofs.AsmTab.microblaze.ranked
+theorem mips_ranked : rankedB Gen.Asm_mips.grammar Gen.Asm_mips.ranks = true := Proofs.AsmTab.mips.ranked
+theorem msp430_ranked : rankedB Gen.Asm_msp430.grammar Gen.Asm_msp430.ranks = true := Proofs.AsmTab.msp430.ranked
+theorem or1k_ranked : rankedB Gen.Asm_or1k.grammar Gen.Asm_or1k.ranks = true := Proofs.AsmTab.or1k.ranked
+theorem riscv_ranked : rankedB Gen.Asm_riscv.grammar Gen.Asm_riscv.ranks = true := Proofs.AsmTab.riscv.ranked
+theorem rvc_ranked : rankedB Gen.Asm_rvc.grammar Gen.Asm_rvc.ranks = true := Proofs.AsmTab.rvc.ranked
+theorem rvf_ranked : rankedB Gen.Asm_rvf.grammar Gen.Asm_rvf.ranks = true := Proofs.AsmTab.rvf.ranked
+theorem rvfx_ranked : rankedB Gen.Asm_rvfx.grammar Gen.Asm_rvfx.ranks = true := Proofs.AsmTab.rvfx.ranked
+theorem stm8_ranked : rankedB Gen.Asm_stm8.grammar Gen.Asm_stm8.ranks = true := Proofs.AsmTab.stm8.ranked
+theorem x86_64_ranked : rankedB Gen.Asm_x86_64.grammar Gen.Asm_x86_64.ranks = true := Proofs.AsmTab.x86_64.ranked
+theorem x87_ranked : rankedB Gen.Asm_x87.grammar Gen.Asm_x87.ranks = true := Proofs.AsmTab.x87.ranked
+theorem xtensa_ranked : rankedB Gen.Asm_xtensa.grammar Gen.Asm_xtensa.ranks = true := Proofs.AsmTab.xtensa.ranked
 
 /-! arm and thumb have the hand-written left-recursive register-list rules
     (`reg_list_inner → reg_list_inner , reg_or_range`): no ranking exists, the dump carries `[]`, and only
     the depth-bounded statement `parses_sound_and_complete` applies (the driver uses fuel 12). -/
 example : Gen.Asm_arm.ranks = [] := rfl
-example : rankedB Gen.Asm_arm.grammar Gen.Asm_arm.ranks = false := by decide +kernel
-example : rankedB Gen.Asm_thumb.grammar Gen.Asm_thumb.ranks = false := by decide +kernel
+example : rankedB Gen.Asm_arm.grammar Gen.Asm_arm.ranks = false := Proofs.AsmTab.arm.not_ranked
+example : rankedB Gen.Asm_thumb.grammar Gen.Asm_thumb.ranks = false := Proofs.AsmTab.thumb.not_ranked
 
 /-- token types the parser sees for a printed flat syntax -/
 def typs (cfg : Config) (ls : List Leaf) (vs : List Val) : List String :=
